@@ -16,6 +16,41 @@ CHECKS = {
         "Trusts CPython json.loads as reader and the harness's normal-form function; NumPy/Pandas/Polars not installable here; two third-party encoder defects are open known findings (F8, F9).",
         "DESIGN.md section 3 C10",
     ),
+    "C01": (
+        "exploration",
+        "property-based testing (Hypothesis): generated logging programs interpreted against the real API; round-trip file -> json -> Parser compared with a reference model built from the AST, plus an independent reference tree (differential)",
+        "Generated-program search: each program (all action/message kinds, exceptions, remote sub-tasks, generators) is executed through the public API into a real JSON log file; the parsed forest must equal the forest the interpreter derives from the AST semantics alone, and the parser must agree with an independent tree builder. Holds on everything generated.",
+        "Trusts the harness interpreter's model of Python with/try semantics, CPython json, and pbt/reftree.py. Timestamps, uuids and traceback text are not compared.",
+        "DESIGN.md section 3 C01",
+    ),
+    "C02": (
+        "exploration",
+        "property-based testing (Hypothesis): generated programs x destination fault masks; history invariants over the healthy observer's message list (uniqueness, contiguity 1..n, start/end placement, causal order)",
+        "Generated programs, alone and next to destinations that raise on generated subsets of calls; the healthy observer's list must satisfy the stated uniqueness/contiguity/order invariants, with failure reports as ordinary tree members. Concurrent schedules are covered through the C05 runs. Holds on everything generated.",
+        "Trusts pbt/reftree.py and pbt/invariants.py. One genuine defect (F7) is an open known finding, excluded by construction and reproduced on every run.",
+        "DESIGN.md section 3 C02",
+    ),
+    "C03": (
+        "exploration",
+        "property-based testing (Hypothesis): generated exit outcomes x exception classes x extractor registrations; model equality of the observed forest, exactly-one start/end counting, identity of propagated exceptions",
+        "Generated nested programs with every exit kind (return, 16 exception classes incl. BaseException-only and raising __str__, generator close/throw) and generated extractor registrations along the MROs (incl. raising extractors); the observed messages must equal the model and the propagated exception must be the raised object. Holds on everything generated.",
+        "Trusts the interpreter's model (incl. its model of the extractor registry: nearest class in MRO, failure -> no fields + one traceback).",
+        "DESIGN.md section 3 C03",
+    ),
+    "C04": (
+        "exploration",
+        "property-based testing (Hypothesis): generated nestings of scoping constructs incl. re-entered contexts, generators and a fault-injecting custom logger; identity oracle on current_action() at every boundary plus model equality of parent/child attribution",
+        "Generated programs over with / context() / run() / re-entry of ancestors / start_task / generators, exits by return, exception or generator close, and (second facet) a custom logger that raises at generated points; current_action() must be the scope's action inside and the pre-entry object after leaving by any path. Holds on everything generated.",
+        "Each case runs in its own contextvars context; non-LIFO exits and re-entering `with action:` itself are outside the quantifier.",
+        "DESIGN.md section 3 C04",
+    ),
+    "C09": (
+        "exploration",
+        "exhaustive enumeration of all task shapes up to 6/7 messages x all permutations x all subsets, plus Hypothesis-generated larger tasks, orders, subsets and interleavings (synthetic writer and real eliot output); Task equality across orders, differential against an independent reference tree, exact completion accounting",
+        "Bounded-exhaustive for small tasks (every shape, every arrival order, every subset; flagged exhaustive in the evidence) and generated search beyond that bound; oracles are order-independence (Task equality), agreement with an independent tree builder, completion reported exactly at the last message and once, subsets never complete.",
+        "Trusts pbt/reftree.py. Ill-formed streams are outside the quantifier.",
+        "DESIGN.md section 3 C09",
+    ),
 }
 
 NOT_YET = "check not built yet in this round; see DESIGN.md for the planned generator and oracle"
